@@ -132,6 +132,8 @@ class Field:
         self.dyn_offset = dyn_offset  # None | name of the field added to the static offset
         self.virtual = virtual        # None | ('alias', target) | ('expr', text, fn(values)->int, deps, writable)
         #                               | ('bool', text, fn(values)->bool, deps, False)
+        self.args = None              # struct-typed field (or array of them): arguments for the runtime
+        #                               parameters of the type — names of UInt:8 fields or int constants
         self.sym = None               # layout virtuals: symbolic form ('+'|'*'|'>'|'=', source, constant) | ('alias', source)
         self.layout = False           # virtual field whose value is used by the location / size /
         #                               existence condition of another field of the struct
@@ -147,12 +149,15 @@ class Field:
             d.append(self.dyn_offset)
         if self.virtual:
             d.extend([self.virtual[1]] if self.virtual[0] == "alias" else self.virtual[3])
+        if self.args:
+            d.extend(a for a in self.args if isinstance(a, str))
         return d
 
 
 class StructT:
-    def __init__(self, name, kind, fields, static_size):
+    def __init__(self, name, kind, fields, static_size, params=()):
         self.name, self.kind, self.fields, self.static_size = name, kind, fields, static_size
+        self.params = list(params)     # names of runtime parameters (all UInt:8)
         # static_size: bytes (struct) or bits (bits) of the fixed part; dynamic tails extend it.
 
     def max_size(self):
@@ -176,24 +181,25 @@ MAXDYN = 5
 DYN_BOUND = 48      # upper bound of any value used as a dynamic offset / count (tags ≤ MAXDYN, `let`s ≤ 5*3*3)
 
 
-def ftype_emb(ft, in_bits):
+def ftype_emb(ft, in_bits, args=None):
+    argtxt = "(%s)" % ", ".join(str(a) for a in args) if args else ""
     if ft[0] == "scalar":
         return ft[1].emb_type(False)
     if ft[0] == "struct":
-        return ft[1].name
+        return ft[1].name + argtxt
     # array: element types need explicit sizes for scalars
     _, elem, count = ft
     suffix = "[%s]" % ("" if count is None else count)
     if elem[0] == "scalar":
         return elem[1].emb_type(True) + suffix
     if elem[0] == "struct":
-        return elem[1].name + suffix
+        return elem[1].name + argtxt + suffix
     # two-dimensional: inner array has a static count
     return ftype_emb(elem, in_bits) + suffix
 
 
 def struct_emb(st):
-    out = ["%s %s:" % (st.kind, st.name)]
+    out = ["%s %s%s:" % (st.kind, st.name, "(%s)" % ", ".join("%s: UInt:8" % p for p in st.params) if st.params else "")]
     if not st.fields:
         out.append("  let emboss_c06_empty = 0")
     for f in st.fields:
@@ -225,7 +231,7 @@ def struct_emb(st):
                 size = f.dyn_count if f.size == 1 else "%s*%d" % (f.dyn_count, f.size)
             else:
                 size = str(f.size)
-            out.append("%s%s [+%s] %s %s" % (ind, off, size, ftype_emb(f.ftype, st.kind == "bits"), f.name))
+            out.append("%s%s [+%s] %s %s" % (ind, off, size, ftype_emb(f.ftype, st.kind == "bits", f.args), f.name))
         if f.anonymous_bits is None or f.virtual:
             if f.attr:
                 out.append('%s  [text_output: "%s"]' % (ind, f.attr))
@@ -301,7 +307,8 @@ def gen_byte_scalar(r, enums):
     return Scalar(k, r.choice([8, 8, 16, 24, 32, 40, 64, 64]))
 
 
-def gen_struct(r, name, enums, fixed_structs, bits_types, allow_dynamic=True, nfields=None, focus=None):
+def gen_struct(r, name, enums, fixed_structs, bits_types, allow_dynamic=True, nfields=None, focus=None,
+               param_structs=()):
     """fixed_structs: previously generated structs with a fixed size (usable as members and
     array elements).  focus="deps": a struct about dependency shapes — tags, `let`s that layout
     goes through, conditional and dynamically placed fields, declared in arbitrary order."""
@@ -384,6 +391,21 @@ def gen_struct(r, name, enums, fixed_structs, bits_types, allow_dynamic=True, nf
             layout_fields.append(f)
             fields.append(f)
 
+    def pick_args(st2):
+        """Arguments for the runtime parameters of st2: a tag, a layout `let`, or a constant."""
+        if not st2.params:
+            return None
+        out = []
+        for _ in st2.params:
+            x = r.random()
+            if tags and x < 0.55:
+                out.append(r.choice(tags))
+            elif lay_int and x < 0.8:
+                out.append(r.choice(lay_int)[0])
+            else:
+                out.append(r.randint(0, 3))
+        return out
+
     def pick_cond():
         """Existence condition on a tag, or through a layout virtual."""
         if lay_bool and r.random() < 0.5:
@@ -415,12 +437,17 @@ def gen_struct(r, name, enums, fixed_structs, bits_types, allow_dynamic=True, nf
             fields.append(Field(fname("b"), ("struct", bt), pos, bt.static_size // 8, cond=cond, attr=attr(),
                                 byte_order=order(1)))
             pos += bt.static_size // 8
-        elif kind == "struct" and fixed_structs:
-            st = r.choice(fixed_structs)
+        elif kind == "struct" and (fixed_structs or param_structs):
+            if param_structs and (not fixed_structs or r.random() < 0.4):
+                st = r.choice(param_structs)
+            else:
+                st = r.choice(fixed_structs)
             fields.append(Field(fname("m"), ("struct", st), pos, st.static_size, cond=cond, attr=attr()))
+            fields[-1].args = pick_args(st)
             pos += st.static_size
         elif kind == "array":
             style = r.choice(["u8", "u8", "scalar", "struct", "2d", "long"])
+            arr_args = None
             if style == "struct" and not fixed_structs:
                 style = "scalar"
             if style == "u8":
@@ -431,7 +458,11 @@ def gen_struct(r, name, enums, fixed_structs, bits_types, allow_dynamic=True, nf
                 sc = gen_byte_scalar(r, enums)
                 elem, esz = ("scalar", sc), sc.bits // 8
             elif style == "struct":
-                st = r.choice([s for s in fixed_structs if s.static_size > 0] or fixed_structs)
+                if param_structs and r.random() < 0.35:
+                    st = r.choice(param_structs)
+                    arr_args = pick_args(st)
+                else:
+                    st = r.choice([s for s in fixed_structs if s.static_size > 0] or fixed_structs)
                 elem, esz = ("struct", st), st.static_size
                 if esz == 0:
                     elem, esz = ("scalar", Scalar("uint", 8)), 1
@@ -442,6 +473,7 @@ def gen_struct(r, name, enums, fixed_structs, bits_types, allow_dynamic=True, nf
             fields.append(Field(fname("a"), ("array", elem, count), pos, esz * count, cond=cond, attr=attr(),
                                 byte_order=order(esz) if elem[0] == "scalar" and esz > 1 else None))
             fields[-1].esz = esz
+            fields[-1].args = arr_args if elem[0] == "struct" and elem[1].params else None
             pos += esz * count
         elif kind == "anon":
             nbytes = r.choice([1, 2, 4])
@@ -511,18 +543,51 @@ def gen_struct(r, name, enums, fixed_structs, bits_types, allow_dynamic=True, nf
     return st
 
 
+def gen_param_struct(r, name, enums):
+    """A fixed-size struct with one runtime parameter `k: UInt:8`: an existence condition on the
+    parameter, directly or through a `let`; a read-only `let` of the parameter (comment only)."""
+    fields = []
+    fields.append(Field("p_a", ("scalar", Scalar("uint", 8)), 0, 1, attr=r.choice([None] * 5 + ["Skip", "Emit"])))
+    sc = gen_byte_scalar(r, enums)
+    if sc.bits > 32:
+        sc = Scalar("uint", 16)
+    c = r.randint(0, 2)
+    cond = None
+    style = r.choice(["direct", "let", "let", "none"])
+    if style == "direct":
+        cond = ("k", c)
+    elif style == "let":
+        lb = Field("p_big", None, 0, 0, attr=r.choice([None, None, "Skip"]),
+                   virtual=("bool", "k > %d" % c, (lambda vals, c=c: vals["k"] > c), ["k"], False))
+        lb.layout, lb.sym = True, (">", "k", c)
+        fields.append(lb)
+        cond = ("p_big", r.random() < 0.8)
+    fields.append(Field("p_b", ("scalar", sc), 1, sc.bits // 8, cond=cond, attr=r.choice([None] * 5 + ["Skip", "Emit"])))
+    if r.random() < 0.6:
+        kk = r.randint(2, 3)
+        v = Field("p_twice", None, 0, 0, attr=r.choice([None, None, "Skip"]),
+                  virtual=("expr", "k * %d" % kk, (lambda vals, kk=kk: vals["k"] * kk), ["k"], False))
+        v.layout, v.sym = True, ("*", "k", kk)
+        fields.append(v)
+    if r.random() < 0.5:
+        fields = fields[::-1]
+    return StructT(name, "struct", fields, 1 + sc.bits // 8, params=["k"])
+
+
 def gen_module(r, name, size="normal"):
     enums = [gen_enum(r, "%sEnum%d" % (name.capitalize(), i)) for i in range(r.randint(1, 3))]
     bits_types = [gen_bits(r, "%sBits%d" % (name.capitalize(), i), enums, r.choice([8, 16, 32]))
                   for i in range(r.randint(1, 2))]
     fixed, types = [], list(bits_types)
+    param_structs = [gen_param_struct(r, "%sPar%d" % (name.capitalize(), i), enums) for i in range(r.randint(0, 2))]
+    types.extend(param_structs)
     nst = r.randint(3, 5)
     for i in range(nst):
         dyn = i >= 1 and r.random() < 0.7
         focus = "deps" if i == nst - 1 else None
         st = gen_struct(r, "%sSt%d" % (name.capitalize(), i), enums, fixed, bits_types,
                         allow_dynamic=dyn or focus is not None, nfields=r.randint(2, 5) if focus else None,
-                        focus=focus)
+                        focus=focus, param_structs=param_structs)
         types.append(st)
         if st.is_fixed() and not any(f.cond for f in st.fields) and st.static_size <= 24:
             fixed.append(st)
@@ -569,7 +634,7 @@ def build_bits_value(r, bt, emitted, path, built, values_out):
     return raw, tree, full
 
 
-def build_value(r, ft, order, default_order, buf_off, emitted, path, built):
+def build_value(r, ft, order, default_order, buf_off, emitted, path, built, params=None):
     """Encodes a random value of type `ft` at byte offset buf_off.  Returns text tree node."""
     order = order or default_order
     if ft[0] == "scalar":
@@ -593,7 +658,7 @@ def build_value(r, ft, order, default_order, buf_off, emitted, path, built):
             for i in range(nbytes):
                 built.mask[buf_off + i] = "E" if (emitted and full) else ("U" if emitted else built.mask[buf_off + i])
             return ("struct", tree), None
-        tree = build_struct(r, st, default_order, buf_off, emitted, path + ".", built)
+        tree = build_struct(r, st, default_order, buf_off, emitted, path + ".", built, params=params)
         return ("struct", tree), None
     if ft[0] == "array":
         _, elem, count = ft
@@ -609,15 +674,15 @@ def elem_size(elem):
     return elem_size(elem[1]) * elem[2]
 
 
-def build_array(r, elem, count, order, default_order, buf_off, emitted, path, built):
+def build_array(r, elem, count, order, default_order, buf_off, emitted, path, built, params=None):
     items = []
     esz = elem_size(elem)
     for i in range(count):
         p = "%s[%d]" % (path, i)
         if elem[0] == "array":
-            node = build_array(r, elem[1], elem[2], order, default_order, buf_off + i * esz, emitted, p, built)
+            node = build_array(r, elem[1], elem[2], order, default_order, buf_off + i * esz, emitted, p, built, params)
         else:
-            node, _ = build_value(r, elem, order, default_order, buf_off + i * esz, emitted, p, built)
+            node, _ = build_value(r, elem, order, default_order, buf_off + i * esz, emitted, p, built, params)
         items.append(node)
     return ("array", items)
 
@@ -673,11 +738,11 @@ def mark_sources_written(st, f, base, built):
                         built.mask[o + i] = "E"
 
 
-def build_struct(r, st, default_order, base, emitted, path, built, size_out=None):
+def build_struct(r, st, default_order, base, emitted, path, built, size_out=None, params=None):
     """Encodes a random value of struct `st` at byte offset `base`.  Returns the ordered
     list [(field name, node)] of fields the text must contain *in source order*; the caller
     re-orders by the real `fields_in_dependency_order`."""
-    values = {}
+    values = dict(params or {})       # runtime parameters are read like fields
     # first: the small tag/length fields (they decide layout), whatever their position
     for f in st.fields:
         if getattr(f, "small", False):
@@ -719,9 +784,16 @@ def build_struct(r, st, default_order, base, emitted, path, built, size_out=None
             built.dump.append((path + f.name, "absent"))
             continue
         off = base + f.offset + (values[f.dyn_offset] if f.dyn_offset else 0)
+        sub_params = None
+        if f.args:
+            ft0 = f.ftype
+            while ft0[0] == "array":
+                ft0 = ft0[1]
+            sub_params = {p: (values[a] if isinstance(a, str) else a) for p, a in zip(ft0[1].params, f.args)}
         if f.ftype[0] == "array":
             count = values[f.dyn_count] if f.dyn_count else f.ftype[2]
-            node = build_array(r, f.ftype[1], count, f.byte_order, default_order, off, em, path + f.name, built)
+            node = build_array(r, f.ftype[1], count, f.byte_order, default_order, off, em, path + f.name, built,
+                               sub_params)
             top = max(top, f.offset + elem_size(f.ftype[1]) * count) if f.dyn_count else top
         else:
             if getattr(f, "small", False):
@@ -734,7 +806,8 @@ def build_struct(r, st, default_order, base, emitted, path, built, size_out=None
                     built.mask[off] = "E"
                 node = ("scalar", sc, v)
             else:
-                node, v = build_value(r, f.ftype, f.byte_order, default_order, off, em, path + f.name, built)
+                node, v = build_value(r, f.ftype, f.byte_order, default_order, off, em, path + f.name, built,
+                                      sub_params)
                 if v is not None and f.ftype[0] == "scalar" and f.ftype[1].kind == "uint":
                     values[f.name] = v
             if f.dyn_offset:
@@ -811,7 +884,7 @@ def skip_locates_emitted(st, seen=None):
         if f.attr == "Skip" or f.virtual:
             continue
         for d in ([f.cond[0]] if f.cond else []) + ([f.dyn_count] if f.dyn_count else []) + \
-                ([f.dyn_offset] if f.dyn_offset else []):
+                ([f.dyn_offset] if f.dyn_offset else []) + [a for a in (f.args or []) if isinstance(a, str)]:
             if unwritten_skip_source(d, frozenset()):
                 return True
         if f.virtual is None and f.ftype is not None:
